@@ -20,12 +20,15 @@ Ops == {"=", "+=", "-=", "*=", "/=", "%="}
 Tys == {"int", "float"}
 Forms == {"let", "lettup", "var", "vartup", "arrelem", "field", "arrfield", "fieldarr",
           "for-count", "for-arr", "param", "lamparam", "match-some", "match-bare",
-          "cap-var", "cap-var-wo", "cap-let", "cap-param"}
+          "cap-var", "cap-var-wo", "cap-let", "cap-param",
+          \* the initializer itself declares bindings (block / if-else / match arm / lambda body with a nested let or var)
+          "var-blk", "var-if", "var-match", "var-after-lam", "let-blk", "let-if"}
 
 Rule(form) ==
-  CASE form \in {"let", "lettup"} -> "diag"                                       \* immutable binding
+  CASE form \in {"let", "lettup", "let-blk", "let-if"} -> "diag"                  \* immutable binding
     [] form \in {"cap-var", "cap-var-wo", "cap-let", "cap-param"} -> "diag"      \* variable captured by a lambda
-    [] form \in {"var", "vartup", "arrelem", "field", "arrfield", "fieldarr"} -> "effect"
+    [] form \in {"var", "vartup", "arrelem", "field", "arrfield", "fieldarr", "var-blk", "var-if", "var-match",
+                 "var-after-lam"} -> "effect"
     [] form \in {"for-count", "for-arr", "param", "lamparam", "match-some", "match-bare"} -> "either"
 
 \* ---------------------------------------------------------------- values
@@ -54,6 +57,26 @@ Body(c) ==
   LET ty == c.ty  x == V("x") IN
   CASE c.form = "let"     -> [types |-> <<>>, fns |-> <<>>, ss |-> <<Let("x", V0(ty))>> \o Asg(c, x) \o <<PrintS(x)>>]
     [] c.form = "var"     -> [types |-> <<>>, fns |-> <<>>, ss |-> <<Var("x", V0(ty))>> \o Asg(c, x) \o <<PrintS(x)>>]
+    [] c.form \in {"var-blk", "let-blk"} ->      \* the initializer is a block that declares a binding of the other kind
+         LET inner == IF c.form = "var-blk" THEN Let("b", V0(ty)) ELSE Var("b", V0(ty))
+             init == Blk(<<inner, ExprS(V("b"))>>) IN
+         [types |-> <<>>, fns |-> <<>>,
+          ss |-> <<(IF c.form = "var-blk" THEN Var("x", init) ELSE Let("x", init))>> \o Asg(c, x) \o <<PrintS(x)>>]
+    [] c.form \in {"var-if", "let-if"} ->
+         LET inner == IF c.form = "var-if" THEN Let("b", V0(ty)) ELSE Var("b", V0(ty))
+             init == [k |-> "ife", c |-> Bl(TRUE), t |-> Blk(<<inner, ExprS(V("b"))>>), e |-> Blk(<<ExprS(W0(ty))>>)] IN
+         [types |-> <<>>, fns |-> <<>>,
+          ss |-> <<(IF c.form = "var-if" THEN Var("x", init) ELSE Let("x", init))>> \o Asg(c, x) \o <<PrintS(x)>>]
+    [] c.form = "var-match" ->
+         LET init == [k |-> "match", s |-> Some(V0(ty)), arms |-> <<
+                        [p |-> [k |-> "var", c |-> "some", ps |-> <<PB("q")>>], e |-> Blk(<<Let("b", V("q")), ExprS(V("b"))>>)],
+                        [p |-> [k |-> "var", c |-> "none", ps |-> <<>>], e |-> Blk(<<ExprS(W0(ty))>>)] >>] IN
+         [types |-> <<>>, fns |-> <<>>, ss |-> <<Var("x", init)>> \o Asg(c, x) \o <<PrintS(x)>>]
+    [] c.form = "var-after-lam" ->               \* a tuple whose first component is a lambda with its own let
+         LET lam == [k |-> "lam", ps |-> <<"p">>, ptys |-> <<ty>>, body |-> Blk(<<Let("b", V("p")), ExprS(V("b"))>>)] IN
+         [types |-> <<>>, fns |-> <<>>,
+          ss |-> <<[k |-> "var", p |-> [k |-> "tup", ps |-> <<PB("f"), PB("x")>>], e |-> Tup(<<lam, V0(ty)>>), ty |-> ""]>>
+                 \o Asg(c, x) \o <<PrintS(x), PrintS(Call("f", <<W0(ty)>>))>>]
     [] c.form \in {"lettup", "vartup"} ->
          [types |-> <<>>, fns |-> <<>>,
           ss |-> <<[k |-> IF c.form = "lettup" THEN "let" ELSE "var", p |-> [k |-> "tup", ps |-> <<PB("x"), PB("y")>>],
